@@ -37,7 +37,7 @@ KIND = {"resp": 0, "junk": 1, "eof": 2}
 FRAMING = {"len": 0, "chunked": 2, "eof": 1}
 STRAY = {"none": 0, "same_resp": 1, "sep_resp": 2, "same_junk": 1, "sep_junk": 3}
 END_OBS = [3, 0, [], 0, [], 0]
-CALLER = {"read_all": 0, "read_k": 1, "release": 2, "keep": 3, "drain": 4, "close": 5, "stream": 6}
+CALLER = {"read_all": 0, "read_k": 1, "release": 2, "keep": 3, "drain": 4, "close": 5, "stream": 6, "read1": 7}
 
 
 def norm_reply(r, head):
@@ -236,6 +236,8 @@ def impl(case):
                         elif c[0] == "read_k":
                             delivered = resp.read(c[1])
                             resp.release_conn()
+                        elif c[0] == "read1":
+                            delivered = resp.read1(c[1])
                         elif c[0] == "release":
                             resp.release_conn()
                         elif c[0] == "keep":
@@ -338,7 +340,8 @@ def histogram(cases, obss):
 
 # ---------------------------------------------------------------- generators
 PLAIN = {"kind": "resp", "status": 200, "framing": "len", "n": 4, "first": 4, "sent": 4, "keep": True, "stray": "none", "eof_after": False}
-CALLERS = [["read_all"], ["read_k", 1], ["read_k", 2], ["release"], ["keep"], ["drain"], ["close"], ["stream", 1], ["stream", 3], ["stream", 64]]
+CALLERS = [["read_all"], ["read_k", 1], ["read_k", 2], ["release"], ["keep"], ["drain"], ["close"], ["stream", 1], ["stream", 3], ["stream", 64],
+           ["read1", 2], ["read1", 64]]
 
 
 def rand_reply(rng):
@@ -358,6 +361,8 @@ def rand_caller(rng, n=7):
     c = rng.choice(CALLERS)
     if c[0] == "read_k":
         return ["read_k", rng.randint(1, 6)]
+    if c[0] == "read1":
+        return ["read1", rng.choice([1, 3, 64])]
     return list(c)
 
 
@@ -365,6 +370,10 @@ def one_case(rng):
     k = rng.randint(2, 4)
     reqs = [{"head": rng.random() < 0.15, "preload": rng.random() < 0.2, "caller": rand_caller(rng)} for _ in range(k)]
     replies = [rand_reply(rng) if rng.random() < 0.8 else dict(PLAIN) for _ in range(2 * k + 2)] + [dict(PLAIN)] * (4 * k + 4)
+    if any(q["caller"][0] == "read1" for q in reqs):
+        for r in replies:          # read1 is modelled for Content-Length framing only
+            if r.get("framing") in ("chunked", "eof"):
+                r["framing"] = "len"
     return {"maxsize": rng.choice([1, 1, 2]), "reqs": reqs, "replies": replies}
 
 
@@ -385,6 +394,8 @@ def cases(rng, tier):
     shapes += [{"kind": "junk"}, {"kind": "eof"}]
     for sh in shapes:
         for c in CALLERS:
+            if c[0] == "read1" and sh.get("framing", "len") != "len":
+                continue
             for head in (False, True):
                 if head and sh.get("framing") != "len":
                     continue
